@@ -286,7 +286,7 @@ def c04(ctx):
                         if ctx['tier'] == 'quick' and ka == 7 and rc > 8 and rc % 16:
                             continue
                         base = ['factory %d' % prof, 'build a0', 'sethandlers 0 7', 'connect 0 %s %d 311 1' % (s_tok('c'), ka)]
-                        out.append(('rc%d-%d-%d-%d' % (prof, ka, rc, sp), base + ['recv 0 %s' % hx(connack(rc, sp)), 'recv 0 %s' % hx(connack(0, 0)), 'lost 0 done', 'fire 1', 'fire 2']))
+                        out.append(('rc%d-%d-%d-%d' % (prof, ka, rc, sp), base + ['recv 0 %s' % hx(connack(rc, sp)), 'recv 0 %s' % hx(connack(0, 0)), 'fire 0', 'lost 0 done', 'fire 1', 'fire 2']))
         # orderings of CONNACK / timeout / loss / duplicate CONNACK
         for prof in (1, 2, 3):
             for ka in (0, 3):
@@ -428,7 +428,16 @@ def c11(ctx):
 def c12(ctx):
     W = dict(QUIET, publish=18, puback=5, pubrec=8, pubcomp=3, fire=8, setwin=3, subscribe=1, unsubscribe=1)
     def extra(ctx):
-        return _crash_points(ctx, 0, 12 if ctx['tier'] == 'quick' else 150, 30, 7000, W)
+        out = _crash_points(ctx, 0, 12 if ctx['tier'] == 'quick' else 150, 30, 7000, W)
+        # in-flight publishes whose identifiers straddle the 65535 -> 1 wrap, lost and resumed
+        for i in range(10 if ctx['tier'] == 'quick' else 100):
+            seed = ctx['seed'] * 100003 + 7500 + i
+            w = walker.Walker(seed, profile=(3, 2)[i % 2], weights=dict(W, lost=6, publish=24), clean=0, allow_api_after_lost=False)
+            w.do('build a0'); w.addr_of[0] = 0; w.nprotos = 1
+            w.do('connect 0 %s 0 311 0' % s_tok('c')); w.ever_connected.add(0); w.do('recv 0 20020000'); w.do('setwin 0 8'); w.do('setid %d' % (65531 + i % 5))
+            w.run(45)
+            out.append(('wrap%d' % seed, w.lines, w.trace))
+        return out
     return generic('C12', ctx, 150, 4000, 70,
                    'corpus; seeded persistent-session walks with repeated losses, reconnects with cleanStart False or True, publishes before and after CONNACK; crash-point sweep over persistent histories',
                    weights=dict(W, lost=8), extra=extra, profiles=(3, 2, 3))
@@ -509,7 +518,7 @@ def c15(ctx):
     return generic('C15', ctx, 200, 5000, 60,
                    'corpus; seeded walks with keepalive in {0,1,2,5,60} and PINGRESP at random points, other traffic, loss and reconnect; enumerated: per keepalive value, runs of up to 20 '
                    'periods with PINGRESP answered / never / late / twice / unsolicited and both orders of the same-instant deadline and loop timers',
-                   weights=dict(QUIET, pingresp=14, fire=26, lost=3, publish=4, connack=8, puback=2), extra=extra, keepalives=(0, 1, 2, 5, 60, 2, 5))
+                   weights=dict(QUIET, pingresp=14, fire=26, lost=3, publish=4, connack=8, puback=2), extra=extra, keepalives=(0, 1, 2, 5, 60, 2, 5), naddr=2)
 
 
 def c17(ctx):
@@ -534,7 +543,7 @@ def c18(ctx):
     res = generic('C18', ctx, 250, 6000, 60,
                   'corpus; seeded walks in all profiles including API calls and timer expiries between disconnect()/abort and the loss report, and connect() on idle-again protocols; every write is '
                   'judged by the monitor and the complete byte stream of every transport is parsed by the strict reference decoder (Lean driver)',
-                  weights=dict(garbage=1, badcall=1, connect_bad=1, disconnect=3, fire=12, lost=4, connack_bad=3), allow_api_after_lost=True)
+                  weights=dict(garbage=1, badcall=1, connect_bad=1, disconnect=3, fire=12, lost=4, connack_bad=3), allow_api_after_lost=True, reconnect_idle_again=True)
     return res
 
 
@@ -566,6 +575,11 @@ def c16(ctx):
                         if len(sc) > 400:
                             out.append(('mal', sc + ['lost 0 done'])); sc = list(pre)
                 out.append(('mal', sc + ['lost 0 done']))
+        for prof in (3, 1):
+            pre = ['factory %d' % prof, 'build a0', 'sethandlers 0 7', 'connect 0 %s 0 311 0' % s_tok('c'), 'recv 0 20020000']
+            for fb in (0x36, 0x37, 0x3E, 0x3F):
+                body = b'\x00\x01t' + b'\x00\x21' + b'zz'
+                out.append(('qos3', pre + ['recv 0 %s' % hx(pkt(fb, body)), 'recv 0 %s' % hx(ack(0x62, 0x21)), 'recv 0 %s' % hx(ack(0x62, 0x21)), 'lost 0 done']))
         # every valid broker packet with each single byte mutated, truncated or extended
         valid = [connack(0, 0), ack(0x40, 1), ack(0x50, 2), ack(0x70, 2), ack(0x62, 7), suback(3, [1]), ack(0xB0, 3), pkt(0xD0),
                  publish_pkt('a/ñ', b'xy', 0), publish_pkt('t', b'z', 1, mid=9), publish_pkt('t', b'z', 2, mid=7)]
